@@ -839,10 +839,64 @@ def run_case(spec, rec):
         rec.skip(f"transport-failure-inconclusive:{type(e).__name__}")
 
 
+def enumerate_cases(tier):
+    """the S3 file object (own range download, fixed chunk size of 2**18 bytes)
+    against the loopback server as unsigned path-style endpoint"""
+    cs = 2 ** 18
+    return [{"kind": "s3bytes", "L": L, "seed": 7 + i}
+            for i, L in enumerate([2 * cs + 77, 2 * cs, cs + 1, 3 * cs - 1, 1000])]
+
+
+def _run_s3bytes(spec, rec):
+    try:
+        from dclab.rtdc_dataset.fmt_s3 import S3File, BOTO3_AVAILABLE
+    except ImportError:
+        BOTO3_AVAILABLE = False
+    if not BOTO3_AVAILABLE:
+        rec.skip("s3:boto3-not-available")
+        return
+    srv = _server()
+    cs, L = 2 ** 18, int(spec["L"])
+    blob = _blob(spec["seed"], L)
+    name = f"vf-bucket/s3-{boot._case_counter}-{spec['seed']}.bin"
+    srv.put(name, blob)
+    rec.cls("kind:s3bytes")
+    rec.nontrivial()
+    f = S3File(name, endpoint_url=srv.base_url.rstrip("/"), use_ssl=False)
+    try:
+        rec.check(f.length == L, "s3/length", lambda: f"{f.length} != {L}")
+        reads = [(0, 10), (L - 5, 100), (max(L - 1, 0), 1)]
+        for b in range(cs, L + 1, cs):
+            reads += [(b - 10, 50), (b - 50, 50), (b, 10), (b - 1, 1), (b - 1, 2)]
+        reads += [(3, L), (0, None)]
+        for pos, n in reads:
+            pos = max(0, pos)
+            f.seek(pos)
+            data = f.read() if n is None else f.read(n)
+            exp = blob[pos:] if n is None else blob[pos:pos + n]
+            kind = ("whole" if n is None or n >= L - 3 else
+                    "crossing" if pos // cs != (pos + max(n, 1) - 1) // cs else
+                    "ends-on-boundary" if (pos + n) % cs == 0 else "inner")
+            rec.cls("s3:read-" + kind)
+            rec.check(bytes(data) == exp, f"s3/read/{kind}",
+                      lambda: f"S3File: seek({pos}); read({n}) returned {len(data)} "
+                              f"bytes, expected {len(exp)} (L={L}); equal prefix "
+                              f"{_eqprefix(data, exp)}")
+            rec.check(f.tell() == pos + len(exp), f"s3/pos/{kind}",
+                      lambda: f"position {f.tell()} after seek({pos}); read({n}), "
+                              f"expected {pos + len(exp)}")
+    finally:
+        f.close()
+        srv.remove(name)
+
+
 def _run_case(spec, rec):
     _server()   # replay path: no setup_shard
     if spec["kind"] == "bytes":
         _run_bytes(spec, rec)
+        return
+    if spec["kind"] == "s3bytes":
+        _run_s3bytes(spec, rec)
         return
     # The server lives in this process.  While h5py reads through the HTTP file
     # object it holds its global lock; a cyclic garbage collection that happens
